@@ -217,7 +217,7 @@ pub fn run(ctx: &Ctx) -> Collector {
     col.assume("hook H2 records the candidate exactly as it was scored (one guarded line after the score call)");
     let thorough = ctx.tier.thorough();
     let mut spaces_v: Vec<Space> = vec![];
-    spaces_v.push(spaces::s_small(if thorough { &[None, Some(0)] } else { &[None] }, false));
+    spaces_v.push(spaces::s_small(if thorough { &[None, Some(0), Some(1)] } else { &[None, Some(0)] }, false));
     let fams: Vec<Family> = if thorough { vec![Family::Ctr, Family::Lo, Family::Hi, Family::Pad] } else { vec![Family::Ctr] };
     for f in fams {
         let mut sp = spaces::s_len_tier(f, 7200, thorough);
